@@ -6,6 +6,7 @@ correspondence run checks that fragment against the real `git check-attr`.
 -/
 import LfsModel.Gen
 import LfsModel.TrackProofs
+import LfsModel.TrackSeq
 
 namespace C19
 open Trk
@@ -68,5 +69,37 @@ theorem d9b_tab_splits_field : firstField (escapeGlob [97, 9, 98] ++ 32 :: [102]
 
 /-- non-vacuity: a name with blank, `#`, `*`, `[`, backslash -/
 example : escapeGlob [97, 32, 35, 42, 91, 92] = [97] ++ spaceClass ++ [92, 35, 92, 42, 92, 91, 92, 92] := by decide
+
+/-! ### sequences of track / untrack (the lines of .gitattributes as the commands see them) -/
+open TrkSeq in
+/-- after `git lfs track p` (any lock flag) a line for p — or for p without its leading slash, which
+    covers it — assigns filter=lfs -/
+theorem seq_track_tracks (ls : List TrkSeq.Line) (p : TrkSeq.Bytes) (f : TrkSeq.Flag) :
+    ∃ l ∈ TrkSeq.track ls p f, (l.pat = TrkSeq.joinDot p ∨ l.pat = p) ∧ l.lfs = true := TrkSeq.track_tracked ls p f
+
+/-- re-running track with the same argument changes nothing -/
+theorem seq_track_idempotent (ls : List TrkSeq.Line) (p : TrkSeq.Bytes) (f : TrkSeq.Flag) :
+    TrkSeq.track (TrkSeq.track ls p f) p f = TrkSeq.track ls p f := TrkSeq.track_idempotent ls p f
+
+/-- without --lockable / --not-lockable the pattern's lockable attribute is left as it is -/
+theorem seq_track_leaves_lockable (ls : List TrkSeq.Line) (p : TrkSeq.Bytes)
+    (h : ∃ l ∈ ls, l.pat = p ∧ TrkSeq.known l = true ∧ l.lockable = true) :
+    ∃ l ∈ TrkSeq.track ls p .none, l.pat = p ∧ l.lockable = true := TrkSeq.track_none_keeps_lockable ls p h
+
+/-- after `git lfs untrack p` no line assigns filter=lfs to p, and it stays so when repeated -/
+theorem seq_untrack_untracks (ls : List TrkSeq.Line) (p : TrkSeq.Bytes) :
+    (∀ l ∈ TrkSeq.untrack ls p, ¬ (l.pat = p ∧ l.lfs = true)) ∧
+    TrkSeq.untrack (TrkSeq.untrack ls p) p = TrkSeq.untrack ls p :=
+  ⟨TrkSeq.untrack_gone ls p, TrkSeq.untrack_idempotent ls p⟩
+
+/-- the lines of every pattern that no operation of a sequence names come out as they went in -/
+theorem seq_other_patterns_unchanged (ops : List TrkSeq.Op) (q : TrkSeq.Bytes)
+    (h : ∀ o ∈ ops, (q == TrkSeq.opPat o) = false) (ls : List TrkSeq.Line) :
+    (TrkSeq.run ls ops).filter (·.pat == q) = ls.filter (·.pat == q) := TrkSeq.run_others ops q h ls
+
+/-- non-vacuity: `track --lockable /p ; track /p` on a file with a comment keeps lockable (D50) -/
+example :
+    (TrkSeq.run [⟨[35], false, false, false, 1⟩] [.track [47, 112] .lock, .track [47, 112] .none]).map (fun l => (l.pat, l.lfs, l.lockable)) =
+      [([35], false, false), ([47, 112], true, true)] := by decide
 
 end C19
